@@ -55,6 +55,9 @@ fn alpha(cfg: &Cfg) -> Vec<Op> {
     v.push(c(sgr1(41)));
     v.push(c(sgr1(0)));
     v.push(t("a"));
+    // a line feed on the bottom margin scrolls in new-line mode too
+    v.push(c(Sm(vec![20])));
+    v.push(c(Rm(vec![20])));
     v.push(c(DecSet(vec![1047])));
     v.push(c(DecRst(vec![1047])));
     v.push(Op::resize(cfg.cols, cfg.rows + 1));
@@ -122,11 +125,20 @@ fn medium_part(tier: Tier) -> Part<'static, LockStep> {
     }
 }
 
+static SYS_SWEEP: LockStep = LockStep { property: "C06", probes: false, seed: Some(&super::sweep::fill) };
+
+fn alpha_sweep(cfg: &Cfg) -> Vec<Op> {
+    let mut v = super::sweep::placements(cfg, false);
+    v.extend(super::sweep::scroll_funcs(cfg));
+    v
+}
+
 pub fn run(ctx: &Ctx) -> Report {
     let mut rep = Report::new();
     let p = parts!(ctx.tier, &SYS);
     run_part(ctx, &mut rep, &p);
     run_part(ctx, &mut rep, &medium_part(ctx.tier));
+    run_part(ctx, &mut rep, &super::sweep::sweep_part("scroll-large-screen-parameter-sweep", &SYS_SWEEP, &alpha_sweep, ctx.tier));
     rep.rule = "lock-step BFS of (real Vt, reference terminal) from a screen whose rows carry distinct content: LF/IND/NEL/RI, SU/SD/IL/DL x counts {default,1,2,h-1,h,h+1,65535}, valid and invalid DECSTBM pairs, wrap-causing text, with cursor placement on every row, coloured pen, alternate screen, resizes; after every transition all rows of lines() (screen and scrollback, cells) and the margins are compared".into();
     rep.assumptions = vec!["scrollback compared with unlimited scrollback (and limit 0 for the alternate-screen clause); wrap marks after scrolls are adopted (not specified)".into()];
     rep
@@ -136,6 +148,9 @@ pub fn replay(ctx: &Ctx, v: &Value) -> bool {
     let tier = if v["tier"] == "thorough" { Tier::Thorough } else { Tier::Quick };
     if v["part"] == "scroll-lockstep-medium-screen" {
         return replay_part(ctx, &medium_part(tier), v);
+    }
+    if v["part"] == "scroll-large-screen-parameter-sweep" {
+        return replay_part(ctx, &super::sweep::sweep_part("scroll-large-screen-parameter-sweep", &SYS_SWEEP, &alpha_sweep, tier), v);
     }
     let p = parts!(tier, &SYS);
     replay_part(ctx, &p, v)
